@@ -195,3 +195,8 @@ Definition op_build (c : cli_case) (dir_exists : bool) (outdir ext : list Z) (l 
   | Exit code out diag ws => (code, diag, out, ws)
   | Crash => (-1, true, [], [])
   end.
+
+(** ** the HTTP handler *)
+Require Import SB.Model.Server.
+Definition op_http (m : Z) (root : bool) (body : list Z) : Z * list Z :=
+  handle (match m with 0 => GET | 1 => POST | _ => OtherMethod end) root body.
